@@ -149,7 +149,9 @@ static void th_one_round(th_Job *j, int r) {
     }
     /* W4: B shares some chunks with A; target = header of B + empty body; copy from A, report what is still missing */
     if(manual) {
-        unsigned char *bp[8]; size_t bl[8]; int nb = 0;
+        unsigned char *bp[10]; size_t bl[10]; int nb = 0;
+        /* new content in front of and behind the shared chunks: two separate missing extents, i.e. a multipart response */
+        unsigned char *extra0 = th_content(&s, 700); bp[nb] = extra0; bl[nb] = 700; nb++;
         for(int i = 0; i < np; i++) { if(th_rng_next(&s) % 2) { bp[nb] = parts[i]; bl[nb] = lens[i]; nb++; } }
         unsigned char *extra = th_content(&s, 900); bp[nb] = extra; bl[nb] = 900; nb++;
         if(th_write_file(o, pb, bp, bl, nb, ht, cht, comp, 1, dict, dl, unc)) {
@@ -169,7 +171,38 @@ static void th_one_round(th_Job *j, int r) {
                     char *rc = rg ? zck_get_range_char(tgt, rg) : NULL;
                     th_tok(o, "copy:%d:%d:%d:%s:%d", fv, cp, miss, rc ? rc : "-", rg ? zck_get_range_count(rg) : -1);
                     zckDL *d = zck_dl_init(tgt);
-                    if(d) { th_tok(o, "dl:%d:%zd", rg ? (int)zck_dl_set_range(d, rg) : -1, zck_dl_get_bytes_downloaded(d)); zck_dl_free(&d); }
+                    if(d) {
+                        th_tok(o, "dl:%d:%zd", rg ? (int)zck_dl_set_range(d, rg) : -1, zck_dl_get_bytes_downloaded(d));
+                        /* ... and the download itself: this thread's own response (its own boundary string) fed through the header and
+                         * write callbacks in a few pieces, other threads doing the same at the same time */
+                        if(rg && rc) {
+                            int ra[8][2], nr = 0; const char *q = rc;
+                            while(*q && nr < 8) { long a = strtol(q, (char **)&q, 10); if(*q != '-') break; long b = strtol(q + 1, (char **)&q, 10); ra[nr][0] = a; ra[nr][1] = b; nr++; if(*q == ',') q++; }
+                            char bnd[64]; snprintf(bnd, sizeof bnd, "t%dr%dx%llu", j->t, r, (unsigned long long)(th_rng_next(&s) % 1000000));
+                            size_t cap = fl + 1024 * (nr + 1), bl2 = 0; char *body = malloc(cap);
+                            if(nr >= 2) {
+                                for(int k = 0; k < nr; k++) {
+                                    bl2 += snprintf(body + bl2, cap - bl2, "\r\n--%s\r\nContent-Type: application/octet-stream\r\nContent-Range: bytes %d-%d/%zu\r\n\r\n", bnd, ra[k][0], ra[k][1], fl);
+                                    memcpy(body + bl2, fb + ra[k][0], ra[k][1] - ra[k][0] + 1); bl2 += ra[k][1] - ra[k][0] + 1;
+                                }
+                                bl2 += snprintf(body + bl2, cap - bl2, "\r\n--%s--\r\n", bnd);
+                                char hl2[160]; int hn = snprintf(hl2, sizeof hl2, "Content-Type: multipart/byteranges; boundary=%s\r\n", bnd);
+                                zck_header_cb(hl2, 1, hn, d);
+                            } else if(nr == 1) { memcpy(body, fb + ra[0][0], ra[0][1] - ra[0][0] + 1); bl2 = ra[0][1] - ra[0][0] + 1; }
+                            size_t fed = 0, okb = 0; int pieces = 0;
+                            while(fed < bl2) {
+                                size_t n2 = 1 + th_rng_next(&s) % (bl2 / 3 + 1); if(n2 > bl2 - fed) n2 = bl2 - fed;
+                                char *pc = malloc(n2); memcpy(pc, body + fed, n2);
+                                size_t w = zck_write_chunk_cb(pc, 1, n2, d); free(pc);
+                                okb += w; fed += n2; pieces++;
+                                if(w != n2) break;
+                                sched_yield();
+                            }
+                            th_tok(o, "dlrun:%d:%d:%zu/%zu:%d", nr, pieces > 0, okb, bl2, zck_missing_chunks(tgt));
+                            free(body);
+                        }
+                        zck_dl_free(&d);
+                    }
                     free(rc); if(rg) zck_range_free(&rg);
                     size_t al; unsigned char *ab = slurp(pt, &al); th_tok(o, "tgt:%016llx", (unsigned long long)th_fnv(ab, al)); free(ab);
                 } else th_tok(o, "copy:openfail");
@@ -177,7 +210,7 @@ static void th_one_round(th_Job *j, int r) {
             }
             zck_free(&zb); close(fd);
         }
-        free(extra);
+        free(extra); free(extra0);
     }
     { char *rs = zck_get_range(th_rng_next(&s) % 100000, 100000 + th_rng_next(&s) % 100000); th_tok(o, "range:%s", rs ? rs : "-"); free(rs); }
 done:
